@@ -4,3 +4,5 @@ pub mod econ;
 pub mod econ2;
 pub mod rules;
 pub mod util;
+pub mod feedw;
+pub mod vammw;
